@@ -39,11 +39,18 @@
 struct vf_in {
 	struct vf_attr a[K];
 	unsigned char garbage[CORR + S];	/* previous content of the buffer */
+	unsigned int ea_seed;
 };
 VF_DECLARE_INPUT(struct vf_in, IN)
 #include "vf_input.inc"
 
-/* STUB: ext2fs_read_inode() is only reached for EA-inode values, which this harness excludes: fails */
+#ifndef EAMASK
+#define EAMASK 0	/* bit i set: attribute i keeps its value in an EA inode (compile-time) */
+#endif
+static struct vf_attr A[K];	/* the model list: IN.a with ea_ino forced to 0 where EAMASK says in-line */
+
+#if EAMASK == 0
+/* STUB: ext2fs_read_inode() is only reached for EA-inode values, which EAMASK=0 excludes: fails */
 errcode_t ext2fs_read_inode(ext2_filsys fs, ext2_ino_t ino, struct ext2_inode *inode)
 {
 	(void) fs; (void) ino; (void) inode;
@@ -56,7 +63,6 @@ errcode_t ext2fs_file_open(ext2_filsys fs, ext2_ino_t ino, int flags, ext2_file_
 	return EXT2_ET_BAD_INODE_NUM;
 }
 struct ext2_inode *ext2fs_file_get_inode(ext2_file_t file) { (void) file; return 0; }
-errcode_t ext2fs_file_get_lsize(ext2_file_t file, __u64 *ret_size) { (void) file; *ret_size = 0; return 0; }
 ext2_off_t ext2fs_file_get_size(ext2_file_t file) { (void) file; return 0; }
 errcode_t ext2fs_file_read(ext2_file_t file, void *buf, unsigned int wanted, unsigned int *got)
 {
@@ -64,6 +70,50 @@ errcode_t ext2fs_file_read(ext2_file_t file, void *buf, unsigned int wanted, uns
 	return EXT2_ET_BAD_INODE_NUM;
 }
 errcode_t ext2fs_file_close(ext2_file_t file) { (void) file; return 0; }
+#else
+/* STUB: ext2fs_read_inode(ino): an EA inode (EXT4_EA_INODE_FL, one link) whose stored hash (i_atime) is seed + 3*ino with a symbolic seed, so a read of the wrong inode is visible */
+errcode_t ext2fs_read_inode(ext2_filsys fs, ext2_ino_t ino, struct ext2_inode *inode)
+{
+	static const struct ext2_inode zero;
+	(void) fs;
+	*inode = zero;
+	inode->i_flags = EXT4_EA_INODE_FL;
+	inode->i_links_count = 1;
+	inode->i_atime = ref_inode_hash(ino);
+	return 0;
+}
+/* STUB: ext2fs_file_open/get_inode/get_size/read/close on an EA inode: a file whose content is the model value of the attribute that names this inode (size = its length); unknown inode numbers fail */
+static struct ext2_inode stub_file_inode[K];
+errcode_t ext2fs_file_open(ext2_filsys fs, ext2_ino_t ino, int flags, ext2_file_t *ret)
+{
+	int i;
+	(void) flags;
+	for (i = 0; i < K; i++) {
+		if (A[i].ea_ino != 0 && A[i].ea_ino == ino) {
+			ext2fs_read_inode(fs, ino, &stub_file_inode[i]);
+			stub_file_inode[i].i_size = A[i].vlen;
+			*ret = (ext2_file_t) &stub_file_inode[i];
+			return 0;
+		}
+	}
+	return EXT2_ET_BAD_INODE_NUM;
+}
+struct ext2_inode *ext2fs_file_get_inode(ext2_file_t file) { return (struct ext2_inode *) file; }
+ext2_off_t ext2fs_file_get_size(ext2_file_t file) { return ((struct ext2_inode *) file)->i_size; }
+errcode_t ext2fs_file_read(ext2_file_t file, void *buf, unsigned int wanted, unsigned int *got)
+{
+	int i, b;
+	for (i = 0; i < K; i++)
+		if ((struct ext2_inode *) file == &stub_file_inode[i])
+			for (b = 0; b < VM; b++)
+				if ((unsigned) b < wanted && b < A[i].vlen)
+					((unsigned char *) buf)[b] = A[i].val[b];
+	if (got)
+		*got = wanted;
+	return 0;
+}
+errcode_t ext2fs_file_close(ext2_file_t file) { (void) file; return 0; }
+#endif
 
 static struct struct_ext2_filsys vf_fs;
 static struct ext2_super_block vf_sb;
@@ -84,34 +134,46 @@ int main(void)
 	errcode_t rc;
 
 	VF_INPUT(IN);
+	ref_ea_seed = IN.ea_seed;
 	for (i = 0; i < K; i++) {
-		ASSUME(ref_attr_ok(&IN.a[i]));
-		space += ref_space1(&IN.a[i]);
+		A[i] = IN.a[i];
+		if ((EAMASK >> i) & 1) {
+			/* ASSUME: EA inode numbers are non-zero and pairwise distinct (a shared EA inode is the refcount case: outside) */
+			ASSUME(A[i].ea_ino != 0);
+			for (b = 0; b < i; b++)
+				ASSUME(A[b].ea_ino != A[i].ea_ino);
+		} else
+			A[i].ea_ino = 0;
+		ASSUME(ref_attr_ok(&A[i]));
+		space += ref_space1(&A[i]);
 	}
 	/* ASSUME: caller contract of write_xattrs_to_buffer: ext2fs_xattr_set/xattr_array_update keep the attributes' space <= region size - 4 (terminator); asserted by harness "update" */
 	ASSUME(space <= S - 4);
 
 	vf_fs.super = &vf_sb;
+#if EAMASK != 0
+	vf_sb.s_feature_incompat = EXT4_FEATURE_INCOMPAT_EA_INODE;
+#endif
 	for (i = 0; i < CORR + S; i++)
 		base[i] = IN.garbage[i];
 	for (i = 0; i < K; i++) {
 		for (b = 0; b < NM; b++)
-			vf_names[i][b] = b < IN.a[i].nlen ? (char) IN.a[i].name[b] : 0;
+			vf_names[i][b] = b < A[i].nlen ? (char) A[i].name[b] : 0;
 		for (b = 0; b < VM; b++)
-			vf_vals[i][b] = IN.a[i].val[b];
-		vf_attrs[i].name_index = IN.a[i].idx;
+			vf_vals[i][b] = A[i].val[b];
+		vf_attrs[i].name_index = A[i].idx;
 		vf_attrs[i].name = vf_names[i];		/* full name not read by the serialiser */
 		vf_attrs[i].short_name = vf_names[i];
 		vf_attrs[i].value = vf_vals[i];
-		vf_attrs[i].value_len = IN.a[i].vlen;
-		vf_attrs[i].ea_ino = 0;
+		vf_attrs[i].value_len = A[i].vlen;
+		vf_attrs[i].ea_ino = A[i].ea_ino;
 	}
 
 	rc = write_xattrs_to_buffer(&vf_fs, vf_attrs, K, ent, S, CORR, WRITE_HASH);
-	PROP(rc == 0, "serialising in-line values cannot fail");
+	PROP(rc == 0, "serialising cannot fail (in-line values; EA inodes readable)");
 
-	code = ref_region_check(ent, S, CORR, IN.a, K, WRITE_HASH);
-	PROP(code == 0, "region holds exactly the attributes: format rules 1-15 of xa_common.h");
+	code = ref_region_check(ent, S, CORR, A, K, WRITE_HASH);
+	PROP(code == 0, "region holds exactly the attributes: format rules 1-17 of xa_common.h");
 #if LAYOUT == 1
 	for (i = 0; i < CORR; i++)
 		PROP(base[i] == IN.garbage[i], "block header bytes untouched by the serialiser");
@@ -132,19 +194,19 @@ int main(void)
 		for (i = 0; i < K; i++) {
 			struct ext2_xattr *x = &vf_rattrs[i];
 			int ok = 1;
-			PROP(x->name_index == IN.a[i].idx, "parsed name index");
-			PROP(x->value_len == IN.a[i].vlen, "parsed value length");
-			PROP(x->ea_ino == 0, "parsed value is in-line");
+			PROP(x->name_index == A[i].idx, "parsed name index");
+			PROP(x->value_len == A[i].vlen, "parsed value length");
+			PROP(x->ea_ino == A[i].ea_ino, "parsed EA inode number (0 = in-line)");
 			PROP(x->short_name >= x->name, "short name lies in the full name");
 			for (b = 0; b < NM; b++)
-				if (b < IN.a[i].nlen && (unsigned char) x->short_name[b] != IN.a[i].name[b])
+				if (b < A[i].nlen && (unsigned char) x->short_name[b] != A[i].name[b])
 					ok = 0;
-			if (x->short_name[IN.a[i].nlen] != 0)
+			if (x->short_name[A[i].nlen] != 0)
 				ok = 0;
 			PROP(ok, "parsed short name equals the name written");
 			ok = 1;
 			for (b = 0; b < VM; b++)
-				if (b < IN.a[i].vlen && ((unsigned char *) x->value)[b] != IN.a[i].val[b])
+				if (b < A[i].vlen && ((unsigned char *) x->value)[b] != A[i].val[b])
 					ok = 0;
 			PROP(ok, "parsed value equals the value written");
 		}
